@@ -259,6 +259,30 @@ theorem udnFromUsn_typed (pre id ty : List Char) (hpre : lowerL pre = "uuid".toL
     simp only [List.cons_append] at this
     simp [beforeDoubleColon, na, nb, nc, nd, hi0, this]
 
+theorem beforeDoubleColon_id (l : List Char) (h : isInfixL [':', ':'] l = false) : beforeDoubleColon l = l := by
+  induction l with
+  | nil => rfl
+  | cons c r ih =>
+    simp only [isInfixL, Bool.or_eq_false_iff] at h
+    obtain ⟨hpre, hr⟩ := h
+    unfold beforeDoubleColon
+    split
+    · rename_i heq
+      simp only [List.cons.injEq] at heq
+      obtain ⟨rfl, rfl⟩ := heq
+      simp [List.isPrefixOf] at hpre
+    · rename_i heq
+      simp only [List.cons.injEq] at heq
+      obtain ⟨rfl, rfl⟩ := heq
+      rw [ih hr]
+    · rename_i heq; cases heq
+
+/-- a bare `uuid:<id>` USN (no `::` anywhere) names itself -/
+theorem udnFromUsn_bare (usn : String) (h5 : lowerL (usn.toList.take 5) = "uuid:".toList)
+    (hno : isInfixL [':', ':'] usn.toList = false) : udnFromUsn usn = some usn := by
+  unfold udnFromUsn
+  simp only [h5, beq_self_eq_true, if_true, beforeDoubleColon_id _ hno, String.ofList_toList]
+
 /-! ### location validity -/
 
 theorem isInfixL_append (n a b : List Char) : isInfixL n (a ++ (n ++ b)) = true := by
